@@ -82,7 +82,7 @@ var clauseTemplates = []tmpl{
 	{"WITH", "WITH x (a) AS (SELECT §, §) SELECT * FROM x"},
 	{"WITH RECURSIVE", "WITH RECURSIVE r (n) AS (SELECT 1 UNION ALL SELECT n + 1 FROM r WHERE n < §) SELECT COUNT(*) FROM r"},
 	{"WITH RECURSIVE", "WITH RECURSIVE r (n) AS (SELECT § UNION SELECT n || § FROM r WHERE LEN(n) < 6) SELECT * FROM r LIMIT §"},
-	{"WITH RECURSIVE nested", "WITH RECURSIVE r (n) AS (SELECT 1 UNION ALL SELECT n + 1 FROM r, r r2 WHERE r.n < §) SELECT COUNT(*) FROM r"},
+	{"WITH RECURSIVE nested", "WITH RECURSIVE r (n) AS (SELECT 1 UNION ALL SELECT n + 1 FROM r, r r2 WHERE r.n < 4) SELECT COUNT(*) FROM r LIMIT §"},
 	{"SUBSTRING FROM FOR", "SELECT SUBSTRING(s FROM § FOR §) FROM big"},
 	{"SUBSTRING FROM", "SELECT SUBSTRING(§ FROM §)"},
 	{"NTILE", "SELECT NTILE(§) OVER (ORDER BY i) FROM big"},
@@ -282,7 +282,9 @@ func progOpts(g *hc.Gen) []opt {
 	add(5, "--format", pick(g, []string{"CSV", "TSV", "FIXED", "JSON", "JSONL", "LTSV", "GFM", "ORG", "BOX", "TEXT", "XXX"}), true)
 	add(10, "--timezone", pick(g, []string{"UTC", "Local", "Asia/Tokyo", "No/Where", ""}), true)
 	add(10, "--datetime-format", pick(g, []string{"%Y%m%d", "[\"%Y\"]", "[", "%", ""}), true)
-	add(10, "--limit-recursion", pick(g, []string{"5", "0", "-1", "100000"}), true)
+	// recursion stays bounded by construction: the limit is at most 1000 wherever a recursive query can run with a
+	// bound drawn from the pool (unlimited / huge limits are driven in grammarJobs, over a recursion of 20 steps)
+	add(10, "--limit-recursion", pick(g, []string{"5", "0", "50", "1000"}), true)
 	add(10, "--write-encoding", pick(g, []string{"UTF8", "UTF8M", "UTF16", "UTF16BE", "UTF16LEM", "SJIS", "XXX"}), true)
 	add(10, "--write-delimiter", pick(g, []string{";", "\t", "", "ab", "\n"}), true)
 	add(10, "--write-delimiter-positions", pick(g, []string{"SPACES", "[1,2]", "S[3]", "[", "[2,1]", "[0]"}), true)
